@@ -6,8 +6,9 @@ from .. import gen, impl
 
 
 class Msg:
-    def __init__(self, rng, n, seq, chan, corrupt=False):
-        """a message of n fragments in slot (seq, chan)"""
+    def __init__(self, rng, n, seq, chan, corrupt=False, group=None):
+        """a message of n fragments in slot (seq, chan); with `group`, every fragment travels behind a tag block that
+        names it as sentence i of n of that tag block group (the group id is no part of the reassembly slot)"""
         self.n, self.seq, self.chan = n, seq, chan
         if n == 1 and seq == '':
             bits = gen.payload_bits(rng, 'MessageType1')
@@ -42,6 +43,9 @@ class Msg:
             self.valid[i] = False
         self.bits = bits
         self.single = (n == 1 and seq in ('', '0'))
+        self.wire = list(self.lines)
+        if group is not None:
+            self.wire = [gen.tag_block(b'g:%d-%d-%s,s:st' % (i + 1, n, group.encode())) + l for i, l in enumerate(self.lines)]
 
     def expected(self):
         payload = b''.join(l.split(b',')[5] for l in self.lines)
@@ -55,7 +59,7 @@ def field(item, key):
 
 def check_schedule(ctx, fe, schedule, out, sig, positions=True):
     """schedule: list of (msg, fragment index); out: driver/impl output"""
-    lines = [m.lines[i] for m, i in schedule]
+    lines = [m.wire[i] for m, i in schedule]
     exp = []
     got_frags = {}
     for pos, (m, i) in enumerate(schedule):
@@ -107,18 +111,22 @@ class Prop:
                   [(2, '0', 'A'), (2, '', 'A')], [(3, '0', 'B'), (2, '', 'B')], [(2, '0', 'A'), (2, '', 'A'), (2, '0', 'B')],
                   # a complete one-sentence message whose sequence id field reads 0 is a single-sentence message: it is
                   # delivered at once and does not touch the fragments in flight in slot (0, channel) or ('', channel)
-                  [(2, '0', 'A'), (1, '0', 'A')], [(3, '0', 'B'), (1, '0', 'B'), (1, '', 'B')], [(2, '', 'A'), (1, '0', 'A')]]
+                  [(2, '0', 'A'), (1, '0', 'A')], [(3, '0', 'B'), (1, '0', 'B'), (1, '', 'B')], [(2, '', 'A'), (1, '0', 'A')],
+                  # fragments behind tag blocks: the tag block group id is not the sequence id - a group whose id reads
+                  # like the sequence id of another message in flight on that channel is still another message
+                  [(2, '7', 'A', '3'), (2, '3', 'A')], [(2, '1', 'A', '2'), (2, '2', 'A', '1')], [(2, '', 'B', '0'), (2, '0', 'B')],
+                  [(3, '4', 'A', '4'), (2, '4', 'B', '4')]]
         if tier == 'thorough':
             shapes += [[(3, '1', 'A'), (3, '2', 'A')], [(3, '1', 'A'), (3, '1', 'B'), (2, '2', 'A')], [(4, '1', 'A'), (2, '2', 'B')]]
         for shape in shapes:
             for reuse in (False, True):
-                msgs = [Msg(rng, n, seq, chan, corrupt=(rng.random() < 0.3)) for n, seq, chan in shape]
+                msgs = [Msg(rng, sh[0], sh[1], sh[2], corrupt=(rng.random() < 0.3), group=(sh[3] if len(sh) > 3 else None)) for sh in shape]
                 seqs_per_msg = []
                 for m in msgs:
                     seqs_per_msg.append([[(m, i) for i in p] for p in itertools.permutations(range(m.n))])
                 later = None
                 if reuse:
-                    n, seq, chan = shape[0]
+                    n, seq, chan = shape[0][:3]
                     later = Msg(rng, max(2, n), seq, chan)
                 cap = 300 if tier == 'quick' else 5000
                 combos = list(itertools.product(*seqs_per_msg))
@@ -147,7 +155,8 @@ class Prop:
             for seq, chan in slots[:k]:
                 chain = []
                 for _ in range(rng.randint(1, 2)):          # slot reuse
-                    m = Msg(rng, rng.randint(2, 9), seq, chan, corrupt=(rng.random() < 0.15))
+                    m = Msg(rng, rng.randint(2, 9), seq, chan, corrupt=(rng.random() < 0.15),
+                            group=(str(rng.randint(0, 9)) if rng.random() < 0.2 else None))
                     order = list(range(m.n))
                     rng.shuffle(order)
                     chain += [(m, i) for i in order]
@@ -185,7 +194,7 @@ class Prop:
         cases = self.configs(rng, ctx.tier) + self.random_schedules(rng, 300 if ctx.tier == 'quick' else 6000)
         cases += self.many_slots(ctx.rng('c03-many'), ctx.tier)
         for fe in ('iter', 'queue', 'bytestream'):
-            ops = ['stream %s 0 %s' % (fe, ' '.join(m.lines[i].hex() for m, i in sched)) for _, sched in cases]
+            ops = ['stream %s 0 %s' % (fe, ' '.join(m.wire[i].hex() for m, i in sched)) for _, sched in cases]
             outs = ctx.corr(ops, impl.step, 'stream-' + fe, nontrivial=lambda l, o: '0a21' in o)
             for (label, sched), o in zip(cases, outs):
                 ctx.count(label.split(' reuse')[0] if label != 'random' else 'random')
@@ -196,7 +205,7 @@ class Prop:
         sub = cases[::4]
         ops = []
         for _, sched in sub:
-            stream = b''.join(m.lines[i] + b'\r\n' for m, i in sched)
+            stream = b''.join(m.wire[i] + b'\r\n' for m, i in sched)
             k = srng.choice([0, 2, 7, 25, len(stream) // 9 + 1, len(stream) // 3])
             cuts = sorted(set(srng.sample(range(1, len(stream)), min(k, len(stream) - 1))))
             pts = [0] + cuts + [len(stream)]
